@@ -26,11 +26,6 @@ import signal
 import sys
 
 sys.path.insert(0, os.path.dirname(os.path.dirname(os.path.abspath(__file__))))
-# the repository's pinned third-party versions (asttokens 3.x, astroid) live in /venv; the overlay
-# venv may shadow some of them with other versions, so /venv's site-packages go first
-_PROD_SITE = "/venv/lib/python3.12/site-packages"
-if os.path.isdir(os.path.join(_PROD_SITE, "asttokens")) and sys.path[0] != _PROD_SITE:
-  sys.path.insert(0, _PROD_SITE)
 from vlib import common
 from vlib.rtc import eng, fn
 from checks import C06
@@ -254,7 +249,7 @@ def ens_normal(a, r):
   for n_of, cells in r["obs"]:
     on_cycle, tainted, values = _spec_for(a, n_of)
     for c, v in sorted(values.items()):
-      if cells[c] != ("i", v):
+      if cells[c] != eng._norm(v):
         return "cell c%d[%d] neither lies on nor depends on a cycle; expected %d, holds %r" % (
           c[0], c[1], v, cells[c])
   return True
